@@ -1310,6 +1310,8 @@ class Concatenate(CanBehaveLikeAVariable[T]):
             yield sources
             return
         all_values = []
+        # every computation of the concatenation is a separate evaluation of the concatenated expression.
+        self._child_._reset_cache_()
         # the concatenated expression is evaluated for its values here, wherever else the same expression is used.
         self._child_._eval_parent_ = self
         for child_v in self._child_._evaluate__(sources):
